@@ -207,7 +207,7 @@ _T_OUT = ["two members whose names collide after the '.$' suffix is removed",
 _T_FUNCS = ["evaluate_payload_template", "evaluate_payload_template>clone", "evaluate_payload_template>evaluate", "apply_path"]
 
 
-@condition(timeout={"quick": 90, "thorough": 600}, bounds={"quick": {"N": 3}, "thorough": {"N": 4}}, functions=_T_FUNCS, outside=_T_OUT)
+@condition(timeout={"quick": 150, "thorough": 600}, bounds={"quick": {"N": 3}, "thorough": {"N": 4}}, functions=_T_FUNCS, outside=_T_OUT)
 def template_top_key(k: str, lit: int, p: int, x: int) -> bool:
     """
     requires: len(k) <= @N@ and over(k, A_KEY) and 0 <= p < 7 and -1 <= x <= 1
@@ -218,7 +218,7 @@ def template_top_key(k: str, lit: int, p: int, x: int) -> bool:
     return template_ok(tpl, doc_in(x), doc_ctx(x))
 
 
-@condition(timeout={"quick": 90, "thorough": 600}, bounds={"quick": {"N": 3}, "thorough": {"N": 4}}, functions=_T_FUNCS, outside=_T_OUT)
+@condition(timeout={"quick": 150, "thorough": 600}, bounds={"quick": {"N": 3}, "thorough": {"N": 4}}, functions=_T_FUNCS, outside=_T_OUT)
 def template_nested_key(k: str, lit: int, p: int, x: int) -> bool:
     """
     requires: len(k) <= @N@ and over(k, A_KEY) and 0 <= p < 7 and -1 <= x <= 1
@@ -229,7 +229,7 @@ def template_nested_key(k: str, lit: int, p: int, x: int) -> bool:
     return template_ok(tpl, doc_in(x), doc_ctx(x))
 
 
-@condition(timeout={"quick": 90, "thorough": 600}, bounds={"quick": {"N": 3}, "thorough": {"N": 4}}, functions=_T_FUNCS, outside=_T_OUT)
+@condition(timeout={"quick": 150, "thorough": 600}, bounds={"quick": {"N": 3}, "thorough": {"N": 4}}, functions=_T_FUNCS, outside=_T_OUT)
 def template_key_in_array(k: str, lit: int, p: int, x: int) -> bool:
     """
     requires: len(k) <= @N@ and over(k, A_KEY) and 0 <= p < 7 and -1 <= x <= 1
@@ -239,7 +239,7 @@ def template_key_in_array(k: str, lit: int, p: int, x: int) -> bool:
     return template_ok(tpl, doc_in(x), doc_ctx(x))
 
 
-@condition(timeout={"quick": 60, "thorough": 600}, bounds={"quick": {"N": 3}, "thorough": {"N": 4}}, functions=_T_FUNCS,
+@condition(timeout={"quick": 120, "thorough": 600}, bounds={"quick": {"N": 3}, "thorough": {"N": 4}}, functions=_T_FUNCS,
            outside=["literal floats other than the pool 0.5/-1.5"])
 def template_literal_leaf(kind: int, i: int, s: str, depth: int) -> bool:
     """
@@ -254,7 +254,7 @@ def template_literal_leaf(kind: int, i: int, s: str, depth: int) -> bool:
     return template_ok(tpl, doc_in(1), doc_ctx(1))
 
 
-@condition(timeout={"quick": 60, "thorough": 600}, bounds={"quick": {"N": 3}, "thorough": {"N": 4}}, functions=_T_FUNCS,
+@condition(timeout={"quick": 120, "thorough": 600}, bounds={"quick": {"N": 3}, "thorough": {"N": 4}}, functions=_T_FUNCS,
            note="the implementation documents an extension: array items that are strings ending in '.$' are evaluated; the property says everything else is copied verbatim")
 def template_array_leaf(s: str, depth: int) -> bool:
     """
@@ -265,7 +265,7 @@ def template_array_leaf(s: str, depth: int) -> bool:
     return template_ok(tpl, doc_in(1), doc_ctx(1))
 
 
-@condition(timeout={"quick": 60, "thorough": 300}, functions=_T_FUNCS)
+@condition(timeout={"quick": 120, "thorough": 300}, functions=_T_FUNCS)
 def template_nonstring_under_suffix(kind: int, i: int, depth: int) -> bool:
     """
     requires: kind in (1, 2, 3, 4, 7) and 0 <= depth <= 1
@@ -277,7 +277,7 @@ def template_nonstring_under_suffix(kind: int, i: int, depth: int) -> bool:
     return template_ok(tpl, doc_in(1), doc_ctx(1))
 
 
-@condition(timeout={"quick": 60, "thorough": 600}, bounds={"quick": {"N": 3}, "thorough": {"N": 4}}, functions=_T_FUNCS + ["evaluate (v == '$' branch)"])
+@condition(timeout={"quick": 120, "thorough": 600}, bounds={"quick": {"N": 3}, "thorough": {"N": 4}}, functions=_T_FUNCS + ["evaluate (v == '$' branch)"])
 def template_root_path(kind: int, i: int, s: str, k: str) -> bool:
     """
     requires: 1 <= kind <= 8 and len(s) <= 1 and len(k) <= @N@ and over(k, A_KEY) and -1 <= i <= 1
@@ -289,7 +289,7 @@ def template_root_path(kind: int, i: int, s: str, k: str) -> bool:
     return template_ok(tpl, inp, doc_ctx(1))
 
 
-@condition(timeout={"quick": 60, "thorough": 300}, functions=_T_FUNCS)
+@condition(timeout={"quick": 120, "thorough": 300}, functions=_T_FUNCS)
 def template_path_failures(p: int, q: int, depth: int) -> bool:
     """
     requires: 0 <= p < 7 and 0 <= q < 7 and 0 <= depth <= 1
@@ -339,7 +339,7 @@ def _make_typed(fname, nargs, ibound="True", sbound="len(@S@) <= 1", extra_pre="
         def cond(ka: int, ia: int, sa: str, kb: int, ib: int, sb: str, kc: int, ic: int, sc: str) -> bool:
             return check(expr, {"a": mk(ka, ia, fix(sa)), "b": mk(kb, ib, fix(sb)), "c": mk(kc, ic, fix(sc))})
     cond.__doc__ = doc
-    cond = condition(timeout=timeout or {"quick": 60, "thorough": 300}, functions=[_F + fname, _ARGS], outside=list(outside))(cond)
+    cond = condition(timeout=timeout or {"quick": 120, "thorough": 300}, functions=[_F + fname, _ARGS], outside=list(outside))(cond)
     return _register(cond, "%s_%s" % (fname, tag))
 
 
@@ -353,7 +353,7 @@ _make_typed("ArrayPartition", 2, "-1 <= @I@ <= 3")
 _make_typed("ArrayContains", 2, extra_pre="not (ka == 5 and 0 <= ia <= 1 and kb == 2) and not (ka == 5 and kb == 7)", outside=_EQ_OUT)
 _make_typed("ArrayUnique", 1, _B2)
 _make_typed("ArrayRange", 3, "0 <= @I@ <= 1", kinds="(1, 2, 3, 4, 5, 6, 7)", sbound="@S@ == '1'", extra_pre="(ka == 3) + (kb == 3) + (kc == 3) >= 2",
-            timeout={"quick": 90, "thorough": 600})
+            timeout={"quick": 150, "thorough": 600})
 _make_typed("Base64Encode", 1, sbound="len(@S@) <= 1 and over(@S@, 'a,' + chr(233))", realize=True)
 _make_typed("Base64Decode", 1, sbound="@S@ in ('', 'YQ==', 'YQ')", realize=True)
 _make_typed("Hash", 2, sbound="@S@ in ('', 'MD5')", realize=True)
@@ -362,7 +362,7 @@ _make_typed("StringToJson", 1, sbound="@S@ in ('', '1')")
 _make_typed("JsonToString", 1, _B2, sbound="len(@S@) <= 1 and over(@S@, 'a' + chr(34) + chr(92))")
 _make_typed("MathRandom", 2, tag="types")
 _make_typed("UUID", 1, tag="rejects_arguments")
-_make_typed("JsonMerge", 3, extra_pre="kc == 2 and ic == 1", tag="types_ab", sbound="@S@ == 'a'", ibound="@I@ == 0", timeout={"quick": 90, "thorough": 300})
+_make_typed("JsonMerge", 3, extra_pre="kc == 2 and ic == 1", tag="types_ab", sbound="@S@ == 'a'", ibound="@I@ == 0", timeout={"quick": 150, "thorough": 300})
 _make_typed("JsonMerge", 3, extra_pre="ka == 6 and kb == 6 and ia == 0 and ib == 0", sbound="@S@ == 'a'", tag="third_argument")
 _make_typed("Format", 2, _B2, sbound="@S@ in ('', '{}', 'a')", extra_pre="kb not in (1, 2, 7)",
             outside=["States.Format: the text used for boolean, null and float arguments ('natural string representation')"])
@@ -411,7 +411,7 @@ def _make_literal(fname, nargs, extra_pre="True", outside=(), kinds="(1, 2, 3, 4
         def cond(ka: int, ia: int, kb: int, ib: int, kc: int, ic: int) -> bool:
             return check(head + lit(ka, ia, strs) + ", " + lit(kb, ib, strs) + "," + lit(kc, ic, strs) + ")")
     cond.__doc__ = doc
-    cond = condition(timeout=timeout or {"quick": 60, "thorough": 300}, functions=[_F + fname, _ARGS], outside=list(outside))(cond)
+    cond = condition(timeout=timeout or {"quick": 120, "thorough": 300}, functions=[_F + fname, _ARGS], outside=list(outside))(cond)
     return _register(cond, "%s_literals" % fname)
 
 
@@ -421,7 +421,7 @@ _make_literal("ArrayGetItem", 2)
 _make_literal("ArrayPartition", 2)
 _make_literal("ArrayContains", 2, extra_pre="not (ka == 5 and kb == 2) and not (ka == 5 and kb == 7)", outside=_EQ_OUT)
 _make_literal("ArrayUnique", 1)
-_make_literal("ArrayRange", 3, kinds="(2, 3, 4)", extra_pre="ia <= 1 and ib <= 1 and ic <= 1", timeout={"quick": 90, "thorough": 300})
+_make_literal("ArrayRange", 3, kinds="(2, 3, 4)", extra_pre="ia <= 1 and ib <= 1 and ic <= 1", timeout={"quick": 150, "thorough": 300})
 _make_literal("Base64Encode", 1, strs=("", ",", "a(b)"))
 _make_literal("Base64Decode", 1, strs=("", "YQ==", "YQ"))
 _make_literal("Hash", 2, strs=("", "MD5", "SHA-256"))
@@ -429,7 +429,7 @@ _make_literal("StringSplit", 2, strs=("a,b", ",", "a"))
 _make_literal("StringToJson", 1, strs=("", "1", "[1, 2]"))
 _make_literal("JsonToString", 1, outside=["JsonToString: the specification restricts the argument to a Path; literal arguments are accepted by the reference too"])
 _make_literal("MathRandom", 2)
-_make_literal("JsonMerge", 3, kinds="(1, 2, 3, 4)", extra_pre="ia == 0 and ib == 0", timeout={"quick": 90, "thorough": 300})
+_make_literal("JsonMerge", 3, kinds="(1, 2, 3, 4)", extra_pre="ia == 0 and ib == 0", timeout={"quick": 150, "thorough": 300})
 _make_literal("Format", 2, strs=("", "{}", "a"), extra_pre="kb not in (1, 2, 7)")
 
 
@@ -441,7 +441,7 @@ ARITY_ARGS = ["1", "$.arr", "'a'", "$.obj"]
 
 
 def _make_arity(ak):
-    @condition(timeout={"quick": 60, "thorough": 300}, functions=[_F + "* (argument count checks)", _ARGS],
+    @condition(timeout={"quick": 120, "thorough": 300}, functions=[_F + "* (argument count checks)", _ARGS],
                note="Format and MathRandom have their own arity conditions")
     def cond(f: int, n: int) -> bool:
         """
@@ -463,7 +463,7 @@ def arr_n(n, e1, e2, e3, e4=None):
     return [e1, e2, e3, e4][:n]
 
 
-@condition(timeout={"quick": 60, "thorough": 300}, bounds={"quick": {"N": 3}, "thorough": {"N": 4}}, functions=[_F + "ArrayPartition"])
+@condition(timeout={"quick": 120, "thorough": 300}, bounds={"quick": {"N": 3}, "thorough": {"N": 4}}, functions=[_F + "ArrayPartition"])
 def ArrayPartition_values(n: int, e1: int, e2: int, e3: int, e4: int, size: int) -> bool:
     """
     requires: 0 <= n <= @N@ and -1 <= size <= @N@ + 1
@@ -472,7 +472,7 @@ def ArrayPartition_values(n: int, e1: int, e2: int, e3: int, e4: int, size: int)
     return check("States.ArrayPartition($.arr, $.size)", {"arr": arr_n(n, e1, e2, e3, e4), "size": size})
 
 
-@condition(timeout={"quick": 60, "thorough": 300}, bounds={"quick": {"N": 3}, "thorough": {"N": 4}}, functions=[_F + "ArrayGetItem", _F + "ArrayLength"])
+@condition(timeout={"quick": 120, "thorough": 300}, bounds={"quick": {"N": 3}, "thorough": {"N": 4}}, functions=[_F + "ArrayGetItem", _F + "ArrayLength"])
 def ArrayGetItem_ArrayLength_values(n: int, e1: int, e2: int, e3: int, e4: int, idx: int) -> bool:
     """
     requires: 0 <= n <= @N@
@@ -503,7 +503,7 @@ def bool_num_clash(ks, vals):
     return hasbool and has01
 
 
-@condition(timeout={"quick": 90, "thorough": 900}, bounds={"quick": {"K": "(3, 4)", "KX": "(2, 3, 4)"}, "thorough": {"K": "(1, 2, 3, 4, 5, 6)", "KX": "(1, 2, 3, 4, 5, 6)"}},
+@condition(timeout={"quick": 150, "thorough": 900}, bounds={"quick": {"K": "(3, 4)", "KX": "(2, 3, 4)"}, "thorough": {"K": "(1, 2, 3, 4, 5, 6)", "KX": "(1, 2, 3, 4, 5, 6)"}},
            functions=[_F + "ArrayContains"], outside=_EQ_OUT)
 def ArrayContains_values(n: int, k1: int, i1: int, s1: str, k2: int, i2: int, s2: str, kx: int, ix: int, sx: str) -> bool:
     """
@@ -517,7 +517,7 @@ def ArrayContains_values(n: int, k1: int, i1: int, s1: str, k2: int, i2: int, s2
     return check("States.ArrayContains($.arr, $.x)", {"arr": arr, "x": el(kx, ix, sx)})
 
 
-@condition(timeout={"quick": 60, "thorough": 300}, bounds={"quick": {"N": 3}, "thorough": {"N": 4}}, functions=[_F + "ArrayUnique"])
+@condition(timeout={"quick": 120, "thorough": 300}, bounds={"quick": {"N": 3}, "thorough": {"N": 4}}, functions=[_F + "ArrayUnique"])
 def ArrayUnique_integers(n: int, e1: int, e2: int, e3: int, e4: int) -> bool:
     """
     requires: 0 <= n <= @N@ and -2 <= e1 <= 9 and -2 <= e2 <= 9 and -2 <= e3 <= 9 and -2 <= e4 <= 9
@@ -526,7 +526,7 @@ def ArrayUnique_integers(n: int, e1: int, e2: int, e3: int, e4: int) -> bool:
     return check("States.ArrayUnique($.arr)", {"arr": arr_n(n, e1, e2, e3, e4)})
 
 
-@condition(timeout={"quick": 60, "thorough": 300}, bounds={"quick": {"N": 3, "L": 1}, "thorough": {"N": 3, "L": 2}}, functions=[_F + "ArrayUnique"],
+@condition(timeout={"quick": 120, "thorough": 300}, bounds={"quick": {"N": 3, "L": 1}, "thorough": {"N": 3, "L": 2}}, functions=[_F + "ArrayUnique"],
            note="string hashes depend on PYTHONHASHSEED; the oracle (first-occurrence order) does not")
 def ArrayUnique_strings(n: int, s1: str, s2: str, s3: str) -> bool:
     """
@@ -536,7 +536,7 @@ def ArrayUnique_strings(n: int, s1: str, s2: str, s3: str) -> bool:
     return check("States.ArrayUnique($.arr)", {"arr": arr_n(n, conc(s1), conc(s2), conc(s3))})
 
 
-@condition(timeout={"quick": 60, "thorough": 600}, bounds={"quick": {"I": 1, "K3": "(5,)"}, "thorough": {"I": 2, "K3": "(1, 2, 3, 5, 6)"}}, functions=[_F + "ArrayUnique"], outside=_EQ_OUT)
+@condition(timeout={"quick": 120, "thorough": 600}, bounds={"quick": {"I": 1, "K3": "(5,)"}, "thorough": {"I": 2, "K3": "(1, 2, 3, 5, 6)"}}, functions=[_F + "ArrayUnique"], outside=_EQ_OUT)
 def ArrayUnique_mixed(k1: int, i1: int, k2: int, i2: int, k3: int, i3: int) -> bool:
     """
     requires: el_ok(k1, i1, '', (1, 2, 3, 5, 6), 0, '') and el_ok(k2, i2, '', (1, 2, 3, 5, 6), 0, '') and el_ok(k3, i3, '', (1, 2, 3, 5, 6), 0, '')
@@ -546,7 +546,7 @@ def ArrayUnique_mixed(k1: int, i1: int, k2: int, i2: int, k3: int, i3: int) -> b
     return check("States.ArrayUnique($.arr)", {"arr": [el(k1, i1, ""), el(k2, i2, ""), el(k3, i3, "")]})
 
 
-@condition(timeout={"quick": 90, "thorough": 600}, bounds={"quick": {"N": 3}, "thorough": {"N": 6}}, functions=[_F + "ArrayRange"])
+@condition(timeout={"quick": 150, "thorough": 600}, bounds={"quick": {"N": 3}, "thorough": {"N": 6}}, functions=[_F + "ArrayRange"])
 def ArrayRange_values(a: int, b: int, step: int) -> bool:
     """
     requires: -@N@ <= a <= @N@ and -@N@ <= b <= @N@ and -@N@ <= step <= @N@
@@ -558,7 +558,7 @@ def ArrayRange_values(a: int, b: int, step: int) -> bool:
 RANGE_LIMITS = [(0, 999, 1), (0, 1000, 1), (1, 1000, 1), (1, 1001, 1), (0, 1999, 2), (0, 2000, 2), (-999, 0, 1), (-1000, 0, 1), (-500, 500, 1), (5, 5, 1000)]
 
 
-@condition(timeout={"quick": 60, "thorough": 120}, functions=[_F + "ArrayRange (1000 item limit)"])
+@condition(timeout={"quick": 120, "thorough": 120}, functions=[_F + "ArrayRange (1000 item limit)"])
 def ArrayRange_limit(c: int, literal: bool) -> bool:
     """
     requires: 0 <= c < 10
@@ -573,7 +573,7 @@ def ArrayRange_limit(c: int, literal: bool) -> bool:
 AL_B64 = "a,'" + BS + chr(233) + chr(0x20AC)
 
 
-@condition(timeout={"quick": 60, "thorough": 300}, bounds={"quick": {"N": 2}, "thorough": {"N": 3}}, functions=[_F + "Base64Encode", _F + "Base64Decode", "nested call evaluation"])
+@condition(timeout={"quick": 120, "thorough": 300}, bounds={"quick": {"N": 2}, "thorough": {"N": 3}}, functions=[_F + "Base64Encode", _F + "Base64Decode", "nested call evaluation"])
 def Base64_roundtrip(s: str) -> bool:
     """
     requires: len(s) <= @N@ and over(s, AL_B64)
@@ -583,7 +583,7 @@ def Base64_roundtrip(s: str) -> bool:
     return check("States.Base64Encode($.s)", inp) and call("States.Base64Decode(States.Base64Encode($.s))", inp) == ("ok", inp["s"])
 
 
-@condition(timeout={"quick": 60, "thorough": 600}, bounds={"quick": {"N": 4, "AL": "'YQ='"}, "thorough": {"N": 4, "AL": "'YQ=w6k'"}}, functions=[_F + "Base64Decode"],
+@condition(timeout={"quick": 120, "thorough": 600}, bounds={"quick": {"N": 4, "AL": "'YQ='"}, "thorough": {"N": 4, "AL": "'YQ=w6k'"}}, functions=[_F + "Base64Decode"],
            outside=["Base64Decode of text that is not canonical Base64 of UTF-8 text: may fail (IntrinsicFailure) or decode leniently"])
 def Base64Decode_text(s: str) -> bool:
     """
@@ -604,7 +604,7 @@ def json_value(shape, k, i, s, key):
 AL_JSON = "a" + chr(34) + BS
 
 
-@condition(timeout={"quick": 90, "thorough": 600}, bounds={"quick": {"N": 1, "SH": 2}, "thorough": {"N": 2, "SH": 3}}, functions=[_F + "JsonToString", _F + "StringToJson", "nested call evaluation"],
+@condition(timeout={"quick": 150, "thorough": 600}, bounds={"quick": {"N": 1, "SH": 2}, "thorough": {"N": 2, "SH": 3}}, functions=[_F + "JsonToString", _F + "StringToJson", "nested call evaluation"],
            outside=["the exact text of JsonToString (white space, key order); only its parse is compared"])
 def Json_roundtrip(shape: int, k: int, i: int, s: str, key: str) -> bool:
     """
@@ -618,7 +618,7 @@ def Json_roundtrip(shape: int, k: int, i: int, s: str, key: str) -> bool:
     return check("States.JsonToString($.v)", inp) and got[0] == "ok" and ref.same(got[1], v)
 
 
-@condition(timeout={"quick": 60, "thorough": 600}, bounds={"quick": {"N": 2, "AL": "'[]1, '"}, "thorough": {"N": 3, "AL": "'[]{}1a, :' + chr(34)"}}, functions=[_F + "StringToJson"],
+@condition(timeout={"quick": 120, "thorough": 600}, bounds={"quick": {"N": 2, "AL": "'[]1, '"}, "thorough": {"N": 3, "AL": "'[]{}1a, :' + chr(34)"}}, functions=[_F + "StringToJson"],
            note="the JSON parser itself (json.loads) is trusted: it is also the oracle; the condition decides the mapping of parser errors to IntrinsicFailure")
 def StringToJson_text(s: str) -> bool:
     """
@@ -631,7 +631,7 @@ def StringToJson_text(s: str) -> bool:
 ALGS = ["MD5", "SHA-1", "SHA-256", "SHA-384", "SHA-512", "md5", "SHA256", ""]
 
 
-@condition(timeout={"quick": 60, "thorough": 300}, bounds={"quick": {"N": 1}, "thorough": {"N": 2}}, functions=[_F + "Hash"])
+@condition(timeout={"quick": 120, "thorough": 300}, bounds={"quick": {"N": 1}, "thorough": {"N": 2}}, functions=[_F + "Hash"])
 def Hash_values(s: str, alg: int, literal: bool) -> bool:
     """
     requires: len(s) <= @N@ and over(s, 'a,' + chr(233)) and 0 <= alg < 8
@@ -643,7 +643,7 @@ def Hash_values(s: str, alg: int, literal: bool) -> bool:
     return check("States.Hash($.s, $.alg)", {"s": s, "alg": pick(ALGS, alg)})
 
 
-@condition(timeout={"quick": 60, "thorough": 300}, functions=[_F + "JsonMerge"])
+@condition(timeout={"quick": 120, "thorough": 300}, functions=[_F + "JsonMerge"])
 def JsonMerge_values(k1: str, k2: str, k3: str, v1: int, v2: int, v3: int, n1: int, n2: int) -> bool:
     """
     requires: len(k1) == 1 and len(k2) == 1 and len(k3) == 1 and over(k1 + k2 + k3, 'ab') and 0 <= n1 <= 2 and 0 <= n2 <= 1
@@ -658,7 +658,7 @@ def JsonMerge_values(k1: str, k2: str, k3: str, v1: int, v2: int, v3: int, n1: i
     return check("States.JsonMerge($.a, $.b, false)", inp) and unchanged(before, inp)
 
 
-@condition(timeout={"quick": 60, "thorough": 300}, functions=[_F + "MathRandom"],
+@condition(timeout={"quick": 120, "thorough": 300}, functions=[_F + "MathRandom"],
            outside=["MathRandom: distribution and the effect of the seed (only lo <= result < hi is decided; CrossHair models randrange as any integer in range)"])
 def MathRandom_range(a: int, b: int) -> bool:
     """
@@ -668,7 +668,7 @@ def MathRandom_range(a: int, b: int) -> bool:
     return check("States.MathRandom($.a, $.b)", {"a": a, "b": b})
 
 
-@condition(timeout={"quick": 60, "thorough": 300}, functions=[_F + "MathRandom (arity, seed argument)"],
+@condition(timeout={"quick": 120, "thorough": 300}, functions=[_F + "MathRandom (arity, seed argument)"],
            outside=["MathRandom: which JSON types are acceptable as seed (the specification only says 'optional seed value')"])
 def MathRandom_arity_seed(n: int, ks: int, i: int) -> bool:
     """
@@ -679,7 +679,7 @@ def MathRandom_arity_seed(n: int, ks: int, i: int) -> bool:
     return check("States.MathRandom(" + ", ".join(args) + ")", {"a": 1, "b": 5, "s": mk(ks, i, "")})
 
 
-@condition(timeout={"quick": 90, "thorough": 900}, bounds={"quick": {"D": 1, "S": 2, "AL": "'a^-]' + BS"}, "thorough": {"D": 2, "S": 2, "AL": "'ab^-]' + BS"}}, functions=[_F + "StringSplit"],
+@condition(timeout={"quick": 150, "thorough": 900}, bounds={"quick": {"D": 1, "S": 2, "AL": "'a^-]' + BS"}, "thorough": {"D": 2, "S": 2, "AL": "'ab^-]' + BS"}}, functions=[_F + "StringSplit"],
            outside=["StringSplit: whether empty pieces (adjacent, leading or trailing separators) are kept - pieces are compared after dropping empty strings",
                     "StringSplit with an empty separator string"])
 def StringSplit_values(data: str, seps: str) -> bool:
@@ -696,7 +696,7 @@ def StringSplit_values(data: str, seps: str) -> bool:
     return [p for p in got[1] if p != ""] == [p for p in want[1] if p != ""]
 
 
-@condition(timeout={"quick": 30, "thorough": 60}, functions=[_F + "UUID"], outside=["UUID randomness/uniqueness (shape only: canonical version-4 text)"])
+@condition(timeout={"quick": 60, "thorough": 60}, functions=[_F + "UUID"], outside=["UUID randomness/uniqueness (shape only: canonical version-4 text)"])
 def UUID_shape(n: int, spaced: bool) -> bool:
     """
     requires: 0 <= n <= 2
@@ -711,7 +711,7 @@ def UUID_shape(n: int, spaced: bool) -> bool:
 AL_FMT = "a{}'" + BS
 
 
-@condition(timeout={"quick": 60, "thorough": 900}, bounds={"quick": {"N": 2}, "thorough": {"N": 3}}, functions=[_F + "Format", _ARGS])
+@condition(timeout={"quick": 120, "thorough": 900}, bounds={"quick": {"N": 2}, "thorough": {"N": 3}}, functions=[_F + "Format", _ARGS])
 def Format_template_text(t: str, nargs: int) -> bool:
     """
     requires: len(t) <= @N@ and over(t, AL_FMT) and 0 <= nargs <= 2
@@ -724,7 +724,7 @@ def Format_template_text(t: str, nargs: int) -> bool:
 FMT_TEMPLATES = ["", "a", "{}", "a{}b{}", "{}{}{}", "{} {}"]
 
 
-@condition(timeout={"quick": 60, "thorough": 300}, functions=[_F + "Format"])
+@condition(timeout={"quick": 120, "thorough": 300}, functions=[_F + "Format"])
 def Format_arity(t: int, n: int, byref: bool) -> bool:
     """
     requires: 0 <= t < 6 and 0 <= n <= 4
@@ -738,7 +738,7 @@ def Format_arity(t: int, n: int, byref: bool) -> bool:
 FIELD_HEADS = ["", "0", "0.__class__", "0.__class__.__mro__", "0.__doc__", "0[0]", "1", "x", "!r", "!s", ":>3", ":", "0:", "0!r:>4"]
 
 
-@condition(timeout={"quick": 60, "thorough": 900}, bounds={"quick": {"N": 1, "AL": "'0.[a'"}, "thorough": {"N": 2, "AL": "'0.[]!:ra'"}}, functions=[_F + "Format (str.format replacement fields)"],
+@condition(timeout={"quick": 120, "thorough": 900}, bounds={"quick": {"N": 1, "AL": "'0.[a'"}, "thorough": {"N": 2, "AL": "'0.[]!:ra'"}}, functions=[_F + "Format (str.format replacement fields)"],
            note="steered: the template is '{' + field + '}' with the field assembled from a pool of replacement-field heads and a symbolic tail")
 def Format_brace_field(h: int, tail: str, byref: bool) -> bool:
     """
@@ -752,7 +752,7 @@ def Format_brace_field(h: int, tail: str, byref: bool) -> bool:
     return check("States.Format('{" + field + "}', 'x')")
 
 
-@condition(timeout={"quick": 60, "thorough": 300}, bounds={"quick": {"N": 2}, "thorough": {"N": 3}}, functions=[_F + "Format"],
+@condition(timeout={"quick": 120, "thorough": 300}, bounds={"quick": {"N": 2}, "thorough": {"N": 3}}, functions=[_F + "Format"],
            outside=["States.Format whose template comes from a Path and contains a backslash (whether escapes apply to data is not specified)"])
 def Format_values_by_reference(t: str, k: int, i: int, s: str) -> bool:
     """
@@ -769,7 +769,7 @@ AL_STR = "a,'()" + BS
 AL_ESC = "a,'({}" + BS
 
 
-@condition(timeout={"quick": 60, "thorough": 900}, bounds={"quick": {"N": 2}, "thorough": {"N": 3}}, functions=[_ARGS],
+@condition(timeout={"quick": 120, "thorough": 900}, bounds={"quick": {"N": 2}, "thorough": {"N": 3}}, functions=[_ARGS],
            outside=["unescaped { or } in a string argument of a function other than States.Format (reserved characters; the property is silent)"])
 def string_argument_raw_text(t: str, second: bool) -> bool:
     """
@@ -780,7 +780,7 @@ def string_argument_raw_text(t: str, second: bool) -> bool:
     return check("States.Array('" + t + "'" + (", 1)" if second else ")"))
 
 
-@condition(timeout={"quick": 60, "thorough": 900}, bounds={"quick": {"N": 2, "AL": "AL_ESC", "M": 1}, "thorough": {"N": 2, "AL": "AL_FULL", "M": 2}}, functions=[_ARGS])
+@condition(timeout={"quick": 120, "thorough": 900}, bounds={"quick": {"N": 2, "AL": "AL_ESC", "M": 1}, "thorough": {"N": 2, "AL": "AL_FULL", "M": 2}}, functions=[_ARGS])
 def string_argument_escaped(s: str, fn: int) -> bool:
     """
     requires: len(s) <= @N@ and over(s, @AL@) and 0 <= fn <= 2 and (fn == 0 or len(s) <= @M@)
@@ -796,7 +796,7 @@ def string_argument_escaped(s: str, fn: int) -> bool:
 SEPARATORS = [",", ", ", " , ", ",  "]
 
 
-@condition(timeout={"quick": 60, "thorough": 300}, bounds={"quick": {"KA3": "(3, 4)"}, "thorough": {"KA3": "(1, 2, 3, 4, 5, 7)"}}, functions=[_ARGS, _F + "Array"],
+@condition(timeout={"quick": 120, "thorough": 300}, bounds={"quick": {"KA3": "(3, 4)"}, "thorough": {"KA3": "(1, 2, 3, 4, 5, 7)"}}, functions=[_ARGS, _F + "Array"],
            outside=["white space other than blanks around arguments"])
 def argument_list_shapes(n: int, sep: int, ka: int, ia: int, kb: int, ib: int, kc: int, ic: int) -> bool:
     """
@@ -813,7 +813,7 @@ def argument_list_shapes(n: int, sep: int, ka: int, ia: int, kb: int, ib: int, k
 ILL_ARGS = ["", "abc", "1x", "'a", "a'", "1 2", "--1", "1.", ".5", "1e", "nul", "True", "None", "States", "States.", "States.Array", "States.Array(", "$", "(1)", "[1]", "{}", chr(34) + "a" + chr(34)]
 
 
-@condition(timeout={"quick": 60, "thorough": 300}, functions=[_ARGS],
+@condition(timeout={"quick": 120, "thorough": 300}, functions=[_ARGS],
            outside=["numbers in exponent / leading-dot notation and other tokens Python's int()/float() accept beyond JSON numbers (e.g. '1_0', 'inf')"])
 def ill_formed_argument(a: int, pos: int) -> bool:
     """
@@ -829,7 +829,7 @@ NAMES = ["States.Nope", "Nope", "States.", "", "States.format", "states.Format",
          "args", "func", "arglist", "intrinsic", "normalised_func", "input", "context", "apply_path", "evaluate_intrinsic_function", "asl_intrinsic_Default", "print", "eval"]
 
 
-@condition(timeout={"quick": 60, "thorough": 300}, functions=["evaluate_intrinsic_function (name normalisation and locals() dispatch)"])
+@condition(timeout={"quick": 120, "thorough": 300}, functions=["evaluate_intrinsic_function (name normalisation and locals() dispatch)"])
 def function_name_pool(f: int, n: int) -> bool:
     """
     requires: 0 <= f < 21 and 0 <= n <= 2
@@ -839,7 +839,7 @@ def function_name_pool(f: int, n: int) -> bool:
     return check(pick(NAMES, f) + "(" + ", ".join(["'a'", "1"][:n]) + ")", {"k": 1}, {"c": 1})
 
 
-@condition(timeout={"quick": 60, "thorough": 600}, bounds={"quick": {"N": 3, "AL": "'aigr'", "NS": "n == 1"}, "thorough": {"N": 3, "AL": "'aigrsf.'", "NS": "0 <= n <= 1"}},
+@condition(timeout={"quick": 120, "thorough": 600}, bounds={"quick": {"N": 3, "AL": "'aigr'", "NS": "n == 1"}, "thorough": {"N": 3, "AL": "'aigrsf.'", "NS": "0 <= n <= 1"}},
            functions=["evaluate_intrinsic_function (name normalisation and locals() dispatch)"])
 def function_name_symbolic(f: str, n: int) -> bool:
     """
@@ -849,7 +849,7 @@ def function_name_symbolic(f: str, n: int) -> bool:
     return check(f + "(" + ", ".join(["1"][:n]) + ")")
 
 
-@condition(timeout={"quick": 60, "thorough": 600}, bounds={"quick": {"N": 2}, "thorough": {"N": 3}}, functions=["evaluate", "evaluate_intrinsic_function (split on '(')"])
+@condition(timeout={"quick": 120, "thorough": 600}, bounds={"quick": {"N": 2}, "thorough": {"N": 3}}, functions=["evaluate", "evaluate_intrinsic_function (split on '(')"])
 def not_a_call(v: str) -> bool:
     """
     requires: len(v) <= @N@ and over(v, 'aS.()1 ') and not v.startswith('$')
@@ -859,7 +859,7 @@ def not_a_call(v: str) -> bool:
     return check(v)
 
 
-@condition(timeout={"quick": 60, "thorough": 300}, functions=[_ARGS, _F + "MathAdd", "nested call evaluation"])
+@condition(timeout={"quick": 120, "thorough": 300}, functions=[_ARGS, _F + "MathAdd", "nested call evaluation"])
 def nested_depth2_values(a: int, b: int, c: int, shape: int) -> bool:
     """
     requires: 0 <= shape <= 3
@@ -881,7 +881,7 @@ NESTED3 = ["States.MathAdd(States.MathAdd(States.MathAdd($.a, 1), 2), 3)",
            "States.Array(States.MathAdd($.a, 1), States.Array(2))"]           # depth-2 control
 
 
-@condition(timeout={"quick": 60, "thorough": 300}, functions=[_ARGS, "nested call evaluation (depth 3 and 4)"])
+@condition(timeout={"quick": 120, "thorough": 300}, functions=[_ARGS, "nested call evaluation (depth 3 and 4)"])
 def nested_depth3(e: int, a: int) -> bool:
     """
     requires: 0 <= e < 8 and -2 <= a <= 2
@@ -890,7 +890,7 @@ def nested_depth3(e: int, a: int) -> bool:
     return check(pick(NESTED3, e), {"a": a, "arr": [a, 5]})
 
 
-@condition(timeout={"quick": 60, "thorough": 600}, bounds={"quick": {"N": 2}, "thorough": {"N": 3}}, functions=[_ARGS, "nested call evaluation"])
+@condition(timeout={"quick": 120, "thorough": 600}, bounds={"quick": {"N": 2}, "thorough": {"N": 3}}, functions=[_ARGS, "nested call evaluation"])
 def nested_string_argument(s: str, shape: int) -> bool:
     """
     requires: len(s) <= @N@ and over(s, 'a,()') and 0 <= shape <= 2
@@ -903,7 +903,7 @@ def nested_string_argument(s: str, shape: int) -> bool:
     return check(expr)
 
 
-@condition(timeout={"quick": 60, "thorough": 300}, functions=[_ARGS, "apply_path (inside intrinsic arguments)"])
+@condition(timeout={"quick": 120, "thorough": 300}, functions=[_ARGS, "apply_path (inside intrinsic arguments)"])
 def path_arguments(p: int, q: int, fn: int) -> bool:
     """
     requires: 0 <= p < 7 and 0 <= q < 7 and 0 <= fn <= 2
